@@ -18,7 +18,7 @@ IDENTS = ['r', 'rr', 'r_in', 'm_in2', 'inn', 'r2', 'xr']
 def model_cases(tier, seed):
     out = []
     seen = set()
-    nodes = ['L', 'SA', 'AO', 'T1', 'T2', 'LT', 'LS', 'PT', 'LO', 'XV'] if tier == 'quick' else gen.QUICK_NODES
+    nodes = (['L', 'SA', 'AO', 'T1', 'T2', 'LT', 'LS', 'PT', 'LO', 'XV'] if tier == 'quick' else gen.QUICK_NODES) + ['LTO', 'TLO']
 
     def add(s, tag):
         key = json.dumps(s, sort_keys=True)
@@ -54,6 +54,15 @@ def token_replace(eq, old, new):
     return re.sub(r'(?<![A-Za-z0-9_])' + re.escape(old) + r'(?![A-Za-z0-9_])', new, eq)
 
 
+def term_replace(eq, old, new):
+    """occurrences of the term `old`; where the term starts/ends with an identifier character the occurrence must not
+    continue into a longer identifier on that side"""
+    idc = r'[A-Za-z0-9_]'
+    pre = r'(?<!' + idc + ')' if re.match(idc, old[0]) else ''
+    post = r'(?!' + idc + ')' if re.match(idc, old[-1]) else ''
+    return re.sub(pre + re.escape(old) + post, new.replace('\\', '\\\\'), eq)
+
+
 def edit_cases(tier, seed):
     out = []
     ops_chars = ['+', '-', '*', '/', '^', '(', ')', ' ']
@@ -76,6 +85,18 @@ def edit_cases(tier, seed):
             out.append({'kind': 'edit', 'eq': eq, 'ids': ids, 'edit': {'add': [f"d/dt * p = -p + {ids[-1]}"]}, 'seed': seed})
             out.append({'kind': 'edit', 'eq': eq, 'ids': ids, 'edit': {'remove': [f' + {ids[1]}*{ids[2]}'] if '+' in eq else [f'- {ids[-1]}']},
                         'seed': seed})
+    # terms that start with an operator/blank and end with an identifier that is a prefix of a longer identifier
+    pairs = [(a, b) for a in IDENTS for b in IDENTS if a != b and b.startswith(a)]
+    for short, long_ in pairs:
+        for first in (short, long_):
+            second = long_ if first == short else short
+            eq = f"d/dt * q = zz + k2*{first} + k2*{second}"
+            ids = [short, long_]
+            out.append({'kind': 'edit', 'eq': eq, 'ids': ids, 'edit': {'remove': [f' + k2*{short}']}, 'seed': seed})
+            out.append({'kind': 'edit', 'eq': eq, 'ids': ids, 'edit': {'replace': {f'k2*{short}': f'k2*xr9'}}, 'seed': seed,
+                        'extra': {'xr9': 0.123}})
+            out.append({'kind': 'edit', 'eq': f"d/dt * q = ({short}-zz)*k2 - {long_}/zz", 'ids': ids,
+                        'edit': {'replace': {f'({short}': f'(xr9'}}, 'seed': seed, 'extra': {'xr9': 0.123}})
     # inheritance chains of length 1-3 with variable overrides
     for depth in (1, 2, 3):
         for over in ({'k': 4.0}, {'x': 'output(0.9)'}, {'k': 0.5, 'c': 1.5}):
@@ -126,6 +147,7 @@ def run_edit(case):
         res['ok'] = False
         return res
     variables = {'q': 'output(0.3)', 'zz': 0.77, 'k2': 1.9, 'p': 'variable(0.2)'}
+    variables.update(case.get('extra') or {})
     vals = {}
     for i, x in enumerate(case['ids']):
         variables[x] = round(0.4 + 0.3 * i, 3)
@@ -135,9 +157,9 @@ def run_edit(case):
     exp = [case['eq']]
     if kind == 'replace':
         for old, new in ed['replace'].items():
-            exp = [token_replace(e, old, new) for e in exp]
+            exp = [term_replace(e, old, new) for e in exp]
     elif kind == 'remove':
-        exp = [e.replace(ed['remove'][0], '') for e in exp]
+        exp = [term_replace(e, ed['remove'][0], '') for e in exp]
     elif kind == 'append':
         exp = [f"{e} {ed['append']}" for e in exp]
     elif kind == 'add':
@@ -155,6 +177,7 @@ def run_edit(case):
     # and the derived operator computes the expected right-hand side
     from ..refsem import evaluate
     env = dict(vals, zz=0.77, k2=1.9, q=0.3, p=0.2)
+    env.update(case.get('extra') or {})
     try:
         circ = CircuitTemplate('c', nodes={'n': NodeTemplate('n', operators=[new])})
         C = impl.compile_field(circ, {'vectorize': False})
